@@ -1,4 +1,91 @@
-(* placeholder while the correspondence is being established *)
-From Verif Require Import Base.Prelude Model.LocalTree Spec.TreeSpec.
-Example C07_placeholder : strictly_accepted (judge minit sinit (snd (run init [Read 0]))) = true.
-Proof. vm_compute. reflexivity. Qed.
+(* C07 — The local device tree is announced faithfully and addressed uniquely.
+   Property theorems only; proofs are in Proofs/TreeProofs.v.  The model is
+   Model/LocalTree.v (the REPAIRED code: GetOrAddFeature looks again under the entity
+   lock before it creates; tied to spine/device_local.go, entity_local.go, entity.go,
+   feature_local.go, operations.go, nodemanagement_detaileddiscovery.go by the
+   correspondence harness cmd/c07), the property is the trace monitor Spec/TreeSpec.v
+   (the same extracted monitor judges the implementation's traces).  Schedules are part
+   of the operation list: a concurrent GetOrAddFeature is GLookup t / GCreate t, so
+   "forall ops" is "for all histories and all interleavings". *)
+From Verif Require Import Base.Prelude Model.LocalTree Spec.TreeSpec Proofs.TreeProofs.
+
+(* Every history, every schedule: every discovery reply is exactly render(current tree)
+   (REPLY), every announced address resolves to that feature (RESOLVE), AddEntity /
+   RemoveEntity send exactly one partial notification per subscription entry on node
+   management with the right content and nothing else (NOTIFY), no feature id is handed
+   out twice within an entity (FRESH), GetOrAddFeature returns the one feature of the
+   type and role and never creates a second one (SAME).  Nothing is excused. *)
+Theorem C07_trace_accepted : forall ops,
+  accepted (judge minit sinit (snd (run init ops))) = true.
+Proof. exact run_accepted. Qed.
+Print Assumptions C07_trace_accepted.
+
+(* every feature of a member entity is what FeatureByAddress returns for its address *)
+Theorem C07_resolves : forall ops e f,
+  let s := fst (run init ops) in
+  In e (members s) -> In f (feats_of s e) -> resolve s e (f_id f) = Some f.
+Proof. exact resolves. Qed.
+Print Assumptions C07_resolves.
+
+(* feature ids within an entity object are pairwise different and below its generator *)
+Theorem C07_ids_unique : forall ops e o,
+  let s := fst (run init ops) in
+  assoc_N e (objs s) = Some o ->
+  NoDup (map f_id (e_feats o)) /\ forall f, In f (e_feats o) -> (f_id f < ctr_of (ctrs s) e)%N.
+Proof. exact ids_unique. Qed.
+Print Assumptions C07_ids_unique.
+
+(* no (entity, feature id) is handed out twice over a whole history, also after removals
+   (ids of dropped duplicate features and of bare NextFeatureId calls included) *)
+Theorem C07_ids_never_reused : forall ops, NoDup (m_ids (mrun minit (snd (run init ops)))).
+Proof. exact handed_nodup. Qed.
+Print Assumptions C07_ids_never_reused.
+
+(* for all schedules: no entity ever holds two features of one type and role (hence "the"
+   feature GetOrAddFeature returns, clause SAME of the accepted trace, is one and the same) *)
+Theorem C07_get_or_add_sched : forall ops e o,
+  assoc_N e (objs (fst (run init ops))) = Some o -> NoDup (map tr_of (e_feats o)).
+Proof. exact type_role_unique. Qed.
+Print Assumptions C07_get_or_add_sched.
+
+(* The pinned GetOrAddFeature (no second look under the lock): two goroutines both miss,
+   both create; they obtain different features and the entity holds two of one type and role. *)
+Definition c07_witness : list op :=
+  [NewEntity 1 2; GLookup 1 1 4 1; GLookup 2 1 4 1; GCreate 1; GCreate 2; Read 0].
+Theorem C07_pinned_get_or_add_refuted :
+  exists ops, strictly_accepted (judge minit sinit (snd (run_pinned init ops))) = false.
+Proof. exists c07_witness. vm_compute. reflexivity. Qed.
+Print Assumptions C07_pinned_get_or_add_refuted.
+
+Example C07_witness_outputs :
+  map snd (snd (run_pinned init (firstn 5 c07_witness))) = [[Created]; [Miss]; [Miss]; [GRet 1 true]; [GRet 2 true]]%N /\
+  map snd (snd (run init (firstn 5 c07_witness))) = [[Created]; [Miss]; [Miss]; [GRet 1 true]; [GRet 1 false]]%N.
+Proof. vm_compute. split; reflexivity. Qed.
+
+(* Non-vacuity: a server feature with functions, a duplicate (type, role) dropped but its id
+   consumed, a client feature ignoring functions, a peer subscribed with two features gets two
+   notifications, another peer one, reads before and after, removal notification without features. *)
+Example C07_nonvacuous :
+  let ops := [NewEntity 1 5; AddFeature 1 4 2 3 [(11, true, true, true); (12, true, false, false)]%N;
+              AddFeature 1 4 2 0 []; AddFeature 1 5 1 0 [(13, true, true, true)]%N;
+              Subscribe 0 0; Subscribe 0 2; Subscribe 1 1; Subscribe 1 1; AddEntity 1; AddEntity 1;
+              GetOrAdd 1 4 2; GetOrAdd 1 6 2; AddFunction 1 4 15 true false false; Read 2;
+              RemoveEntity 1; Unsubscribe 0 0; NextId 1] in
+  let feats1 := [RFeat 1 1 4 2 4 1 4 2; RFn 11 true false true true; RFn 12 true false false false;
+                 RFeat 1 3 5 1 0 3 5 1]%N in
+  map snd (snd (run init ops)) =
+    [[Created]; [FeatId 1]; [FeatId 2]; [FeatId 3];
+     [SubRes true]; [SubRes true]; [SubRes true]; [SubRes false];
+     ([NBegin 0 0 true; REnt 1 5 1] ++ feats1 ++ [REnd] ++ [NBegin 0 2 true; REnt 1 5 1] ++ feats1 ++ [REnd] ++
+      [NBegin 1 1 true; REnt 1 5 1] ++ feats1 ++ [REnd])%N;
+     [AlreadyMember]; [GRet 1 false]; [GRet 4 true]; [OkDone];
+     ([RBegin 2 true; REnt 0 1 0; REnt 1 5 0;
+       RFeat 0 0 1 3 0 0 1 3; RFn 1 true false false false; RFn 2 true false false false; RFn 3 true false false false;
+       RFn 4 false false false false; RFn 5 false false false false; RFn 6 true false false false;
+       RFn 7 false false false false; RFn 8 false false false false; RFn 9 true false false false;
+       RFeat 0 1 2 2 0 1 2 2; RFn 10 true false false false] ++ feats1 ++
+      [RFeat 1 4 6 2 1 4 6 2; RFn 15 true false false false; REnd])%N;
+     [NBegin 0 0 true; REnt 1 5 2; REnd; NBegin 0 2 true; REnt 1 5 2; REnd; NBegin 1 1 true; REnt 1 5 2; REnd]%N;
+     [SubRes true]; [FeatId 5]]%N /\
+  strictly_accepted (judge minit sinit (snd (run init ops))) = true.
+Proof. vm_compute. split; reflexivity. Qed.
